@@ -2,7 +2,6 @@ package test
 
 import (
 	"bytes"
-	"crypto"
 	"encoding/binary"
 	"fmt"
 	"strings"
@@ -325,7 +324,11 @@ func PSIndexConfig(txtAPI hwapi.LowLevelHardwareInterfaces, p *PreSet) (bool, er
 			return false, fmt.Errorf("TPM2 PS Index Attributes not correct. Have %v - Want: %v", d2.Attributes.String(), tpm20PSIndexAttr.String()), nil
 		}
 
-		size := (uint16(crypto.Hash(d2.NameAlg).Size())) + tpm20PSIndexBaseSize
+		hash, err := d2.NameAlg.Hash()
+		if err != nil {
+			return false, err, nil
+		}
+		size := uint16(hash.Size()) + tpm20PSIndexBaseSize
 		if d2.DataSize != size {
 			return false, fmt.Errorf("TPM2 PS Index size incorrect. Have: %v - Want: %v", d2.DataSize, size), nil
 		}
@@ -431,7 +434,11 @@ func AUXIndexConfig(txtAPI hwapi.LowLevelHardwareInterfaces, p *PreSet) (bool, e
 			return false, fmt.Errorf("TPM2 AUX Index Attributes not correct. Have %v - Want: %v", d2.Attributes.String(), tpm20AUXIndexAttr.String()), nil
 		}
 
-		size := (uint16(crypto.Hash(d2.NameAlg).Size()) * 2) + tpm20AUXIndexBaseSize
+		hash, err := d2.NameAlg.Hash()
+		if err != nil {
+			return false, err, nil
+		}
+		size := (uint16(hash.Size()) * 2) + tpm20AUXIndexBaseSize
 		if d2.DataSize != size {
 			return false, fmt.Errorf("TPM2 AUX Index size incorrect. Have: %v - Want: %v", d2.DataSize, size), nil
 		}
@@ -577,7 +584,11 @@ func POIndexConfig(txtAPI hwapi.LowLevelHardwareInterfaces, p *PreSet) (bool, er
 		if !checkTPM2NVAttr(d2.Attributes, tpm20POIndexAttr, tpm2.AttrWritten) {
 			return false, fmt.Errorf("TPM2 PO Index Attributes not correct. Have %v - Want: %v", d2.Attributes.String(), tpm20POIndexAttr.String()), nil
 		}
-		size := uint16(crypto.Hash(d2.NameAlg).Size()) + tpm20POIndexBaseSize
+		hash, err := d2.NameAlg.Hash()
+		if err != nil {
+			return false, err, nil
+		}
+		size := uint16(hash.Size()) + tpm20POIndexBaseSize
 
 		if d2.DataSize != size {
 			return false, fmt.Errorf("TPM2 PO Index incorrect. Have: %v - Want: %v", d2.DataSize, size), nil
@@ -705,7 +716,11 @@ func POIndexHasValidLCP(txtAPI hwapi.LowLevelHardwareInterfaces, p *PreSet) (boo
 		if err != nil {
 			return false, nil, err
 		}
-		size := uint16(crypto.Hash(d.NameAlg).Size()) + tpm20POIndexBaseSize
+		hash, err := d.NameAlg.Hash()
+		if err != nil {
+			return false, err, nil
+		}
+		size := uint16(hash.Size()) + tpm20POIndexBaseSize
 
 		data, err := txtAPI.NVReadValue(tpmCon, tpm20POIndex, "", uint32(size), tpm20POIndex)
 		if err != nil {
@@ -843,7 +858,11 @@ func readPSLCPPolicy(txtAPI hwapi.LowLevelHardwareInterfaces) (*tools.LCPPolicy,
 		if err != nil {
 			return nil, nil, err
 		}
-		size := uint16(crypto.Hash(d.NameAlg).Size()) + tpm20PSIndexBaseSize
+		hash, err := d.NameAlg.Hash()
+		if err != nil {
+			return nil, nil, err
+		}
+		size := uint16(hash.Size()) + tpm20PSIndexBaseSize
 
 		data, err := txtAPI.NVReadValue(tpmCon, tpm20PSIndex, "", uint32(size), tpm20PSIndex)
 		if err != nil {
